@@ -44,6 +44,7 @@ var kindPatterns = map[string]*regexp.Regexp{
 	model.EType:        regexp.MustCompile(`(?i)operand|number|integer|string|expected|must|type|invalid|unsupported|cannot|can't`),
 	model.ENegShift:    regexp.MustCompile(`(?i)shift|negative|operand|integer|count`),
 	model.ENotObject:   regexp.MustCompile(`(?i)object|property|field|member|অবজেক্ট|অব্জেক্ট`),
+	model.ECyclicPrint: regexp.MustCompile(`(?i)itself|cycl|recurs|circular|self|print`),
 }
 
 // kindMatches implements the lenient kind classes of DESIGN.md section 3.
@@ -140,12 +141,6 @@ func (c *Ctx) runModelCase(s *Sub, src, stdin string, opt model.Options, o judge
 	mc := &modelCase{Src: src, Stdin: stdin, Res: res}
 	if res.Outcome == model.OverBudget {
 		c.Ev.Discard("model-over-budget")
-		return mc
-	}
-	if res.Outcome == model.Unspecified && strings.Contains(res.Why, "self-containing") {
-		// printing a self-containing value exhausts the host stack (open finding
-		// K13 of C07); not executed here
-		c.Ev.Exclude("K13-self-containing-print")
 		return mc
 	}
 	budget := 50*res.Steps + 100000
